@@ -64,8 +64,8 @@ impl Monitor for Life {
     fn prop(&self) -> &'static str {
         "LIFE"
     }
-    fn begin(&mut self, _w: &World, s0: &Snap, _r: &mut Report) {
-        self.sh.begin(s0);
+    fn begin(&mut self, w: &World, s0: &Snap, _r: &mut Report) {
+        self.sh.begin(w, s0);
         self.acc.clear();
         self.pend = None;
     }
@@ -201,5 +201,6 @@ impl Monitor for Life {
             }
         }
         self.sh.observe(w, st);
+        self.sh.report(r);
     }
 }
